@@ -57,6 +57,7 @@ class FnContract:
         self.external = False
         self.canary_exempt = None
         self.rewrites = []  # (rule, old, new, count, line)
+        self.asserts = []  # (method name, Clause): proof assertion after the statement calling .method(
         self.loops = {}
         self.closures = {}
         self.used = False
@@ -105,6 +106,10 @@ def _parse_simple(path, lines):
                 fc.external = True
             elif key == "canary_exempt":
                 fc.canary_exempt = text.strip() or "exempt"
+            elif key == "assert_after":
+                m = re.match(r"(\S+)\s+(.*)$", text.strip(), re.S)
+                cl = _clause("assert", m.group(2), fc.tags, ln)
+                fc.asserts.append((m.group(1), cl))
             elif key == "rewrite":
                 m = re.match(r"(\S+)\s+(?:x(\d+)\s+)?`(.*?)`\s*=>\s*`(.*?)`\s*$", text.strip(), re.S)
                 if not m:
@@ -124,8 +129,9 @@ def _parse_simple(path, lines):
                         raise ContractError("%s:%d: bad loop key %s" % (path, l2, k2))
                 fc.loops[lp.n] = lp
             elif key == "closure":
-                m = re.match(r"(\d+)\s+(.*)$", text.strip(), re.S)
-                cs = ClosureSpec(int(m.group(1)), m.group(2).strip())
+                m = re.match(r"(\d+|[A-Za-z_][A-Za-z0-9_]*#\d+)\s+(.*)$", text.strip(), re.S)
+                key = int(m.group(1)) if m.group(1).isdigit() else m.group(1)
+                cs = ClosureSpec(key, m.group(2).strip())
                 for c in children:
                     _, k2, t2, l2, _c = c
                     if k2 == "ensures":
